@@ -53,7 +53,9 @@ def search(ck, tier, seed):
                                                "%s(%r) (%s) -> %s" % (name, val, dtype, r[1:] if r[0] == "err" else r[1][0].tolist()), case)
     # ---- bounded splines, both directions, boxes of any magnitude, both dtypes
     boxes = [(0.0, 1.0, 0.0, 1.0), (-1.0, 1.0, -1.0, 1.0), (0.0, 2.0, -1.0, 0.5), (-32.0, 32.0, -32.0, 32.0), (-1e3, 1e3, -1e3, 1e3),
-             (-1e6, 1e6, -1e6, 1e6), (31.0, 64.0, -64.0, -31.0)]
+             (-1e6, 1e6, -1e6, 1e6), (31.0, 64.0, -64.0, -31.0),
+             # output intervals with an end at exactly zero over input intervals that have none there
+             (-2.0, 2.0, 0.0, 1.0), (-3.0, -1.0, -5.0, 0.0), (1.0, 4.0, 0.0, 0.5), (-4.0, -1.0, -0.5, 0.0)]
     Ks = [1, 4] if tier == "quick" else [1, 2, 4, 8]
     for fam in sh.FAMILIES:
         for K in Ks:
